@@ -33,6 +33,39 @@ def compositeStore (hist : Array World) (cur : World) (s : Nat) (ks : List Nat) 
       | none => none)
     some { st with colls := cs }
 
+/-- `Collection.Write()`: the collection's dirty items and nodes go to the file, no root record.
+    An armed fault plan (`fault F K TORN`) is honoured: the writes up to the failing one reach the
+    file, the failing one possibly torn, and the call answers `err-io`. -/
+def dWrite (d : DState) (s n : String) : DState × String :=
+  -- Collection.Write(): the collection's dirty items and nodes go to the file, no root record
+  (match s.toNat?, parseBytes n with
+   | some s, some (some n) =>
+     let w := d.w
+     (match assocGet s w.stores with
+      | none => (d, "nostore")
+      | some st =>
+        match collsGet n st.colls with
+        | none => (d, "nocoll")
+        | some c =>
+          if st.readOnly then (d, "err-ro") else
+          match st.file with
+          | none => (d, "err-nofile")
+          | some f =>
+            let wf := w.file f
+            let plan : Option (Nat × Nat) := match w.fault with
+              | some (ff, k, t) => if ff = f then some (k, if t < 0 then 0 else t.toNat) else none
+              | none => none
+            let fs0 : FileSt := { bytes := wf.bytes, size := st.size, log := [],
+                                  failAt := plan.map (·.1), torn := (plan.map (·.2)).getD 0 }
+            let (t, fs) := writeTree c.root fs0
+            let cs := collsSet { c with root := t } st.colls
+            let wf1 := recordWrites wf wf.bytes fs
+            let wf2 := { wf1 with vals := addVals wf1.vals (collsValRanges cs) }
+            ({ d with w := { w with files := assocSet f wf2 w.files,
+                                    stores := assocSet s { st with colls := cs, size := fs.size } w.stores } },
+             if fs.failed then "err-io" else "ok"))
+   | _, _ => (d, "bad-op"))
+
 def dstepTokens (d : DState) (ts : List String) : DState × String :=
   match ts with
   | ["concbegin"] => ({ d with hist := #[d.w] }, "ok")
@@ -57,35 +90,8 @@ def dstepTokens (d : DState) (ts : List String) : DState × String :=
         | some st => (d, "ok " ++ showStore st)
         | none => (d, "nostore"))
      | none => (d, "bad-op"))
-  | ["write", s, n] =>
-    -- Collection.Write(): the collection's dirty items and nodes go to the file, no root record
-    (match s.toNat?, parseBytes n with
-     | some s, some (some n) =>
-       let w := d.w
-       (match assocGet s w.stores with
-        | none => (d, "nostore")
-        | some st =>
-          match collsGet n st.colls with
-          | none => (d, "nocoll")
-          | some c =>
-            if st.readOnly then (d, "err-ro") else
-            match st.file with
-            | none => (d, "err-nofile")
-            | some f =>
-              let wf := w.file f
-              let plan : Option (Nat × Nat) := match w.fault with
-                | some (ff, k, t) => if ff = f then some (k, if t < 0 then 0 else t.toNat) else none
-                | none => none
-              let fs0 : FileSt := { bytes := wf.bytes, size := st.size, log := [],
-                                    failAt := plan.map (·.1), torn := (plan.map (·.2)).getD 0 }
-              let (t, fs) := writeTree c.root fs0
-              let cs := collsSet { c with root := t } st.colls
-              let wf1 := recordWrites wf wf.bytes fs
-              let wf2 := { wf1 with vals := addVals wf1.vals (collsValRanges cs) }
-              ({ d with w := { w with files := assocSet f wf2 w.files,
-                                      stores := assocSet s { st with colls := cs, size := fs.size } w.stores } },
-               if fs.failed then "err-io" else "ok"))
-     | _, _ => (d, "bad-op"))
+  | ["write", s, n] => dWrite d s n
+  | ["failop", "write", s, n] => dWrite d s n   -- the failed call is replayed with the armed fault
   | ["reset"] => ({ w := (stepTokens2 d.w ["reset"]).1, hist := #[], flushed := [] }, "ok")
   | ["flush", s] =>
     -- since the repair of F18: a writable file-backed store refuses to flush while one of its
